@@ -201,6 +201,13 @@ def table_typed(c, ir):
                                                                z3.Select(c.arr("$alive"), ref(z3.Select(mp, u))))))
 
 
+def table_keyed(c, ir):
+    """every entry is filed under its own UUID"""
+    dom, mp = table(c, ir)
+    u = fresh("u", Val)
+    return z3.ForAll([u], z3.Implies(z3.Select(dom, u), c.get("uuid", ref(z3.Select(mp, u))) == u))
+
+
 INL = ("ir.py::IR.get_by_uuid", "block.py::Block._add_to_uuid_cache", "symbol.py::Symbol._add_to_uuid_cache")
 
 
@@ -271,7 +278,7 @@ class SymExprFromPb(IoContract):
 
     def post(self, c0, c1, a, res):
         e, m = res.t, self._m(a)
-        out = {"new_expression": NEW(c0, a, e)}
+        out = {"new_expression": z3.And(NEW(c0, a, e), c1.kind(e) == c1.eng.schema.class_id(self.cls))}
         for attr, b, v in self._refs(c0, a):
             out["%s_is_the_table_entry" % attr] = z3.And(c1.get(attr, e) == v, is_VRef(v), c0.isinst(ref(v), "Symbol"))
         out["offset"] = c1.get("offset", e) == f(c0, self.cls, "offset", m)
@@ -586,3 +593,184 @@ def register(reg):      # noqa: F811
         reg.add(ContainerDecodeAbstract(cls))
     for cls in FILE_OF:
         reg.add(NodeFromPb(cls))
+
+
+BI = "byteinterval.py::ByteInterval."
+
+
+class ToProtoBlock(IoContract):
+    """ByteInterval._to_protobuf/to_proto_block: offset plus the code / data one-of holding the block's own message"""
+    target = BI + "_to_protobuf/to_proto_block"
+    props = ("C02", "C01")
+
+    def __init__(self, cls):
+        self.cls = cls
+        self.variant = cls
+        self.params = {"block": "ref:" + cls}
+        self.result = "pb:Block"
+        self.modifies = lambda c0, a: pbkeys(c0, "Block", cls)
+        super().__init__()
+
+    def selects(self, self_cls, args, kwargs=None):
+        return args[0].cls == self.cls
+
+    def pre(self, c, a):
+        b = a.block.t
+        inner = (CodeBlockToPb if self.cls == "CodeBlock" else DataBlockToPb).pre(None, c, Args_self(a.block))
+        return {"is_block": c.kind(b) == c.eng.schema.class_id(self.cls), "offset_in_range": in_rng(c.get("_offset", b), U64),
+                **inner}
+
+    def post(self, c0, c1, a, res):
+        b, m = a.block.t, res.t
+        member = "code" if self.cls == "CodeBlock" else "data"
+        sub = f(c1, "Block", member, m)
+        out = {"new_message": NEW(c0, a, m),
+               "offset": f(c1, "Block", "offset", m) == c0.get("_offset", b),
+               "one_of_selects_the_block_kind": z3.And(oneof(c1, "Block", "value", m) == VStr(z3.StringVal(member)), is_VRef(sub)),
+               "inner_uuid": f(c1, self.cls, "uuid", ref(sub)) == uuid_blob(c0.get("uuid", b)),
+               "inner_size": f(c1, self.cls, "size", ref(sub)) == c0.get("_size", b)}
+        if self.cls == "CodeBlock":
+            out["inner_decode_mode"] = f(c1, "CodeBlock", "decode_mode", ref(sub)) == VInt(enum_(c0.get("decode_mode", b)))
+        return out
+
+
+def Args_self(sv):
+    from pyvc.contracts import Args
+    a = Args()
+    a["self"] = sv
+    return a
+
+
+class DecodeSymExpr(IoContract):
+    """ByteInterval._decode_symbolic_expressions/decode_symbolic_expression: the one-of selects the expression class"""
+    target = BI + "_decode_symbolic_expressions/decode_symbolic_expression"
+    props = ("C02", "C09", "C17", "C01")
+    params = {"proto_expr": "pb:SymbolicExpression"}
+    closure = {"ir": "ref:IR"}
+    modifies = lambda self, c0, a: {k: NEW for k in ("$alive", "$kind", "offset", "scale", "symbol", "symbol1", "symbol2",
+                                                     "SymExpr.attributes")}
+
+    def pre(self, c, a):
+        m = a.proto_expr.t
+        P = c.eng.schema.pb
+        ac, aa = f(c, "SymbolicExpression", "addr_const", m), f(c, "SymbolicExpression", "addr_addr", m)
+        sel = oneof(c, "SymbolicExpression", "value", m)
+        return {"message_typed": z3.And(P.typed(c, m, "SymbolicExpression"),
+                                        z3.Implies(is_VRef(ac), P.typed(c, ref(ac), "SymAddrConst")),
+                                        z3.Implies(is_VRef(aa), P.typed(c, ref(aa), "SymAddrAddr")),
+                                        # a selected member is present
+                                        z3.Implies(sel == VStr(z3.StringVal("addr_const")), is_VRef(ac)),
+                                        z3.Implies(sel == VStr(z3.StringVal("addr_addr")), is_VRef(aa))),
+                "table_typed": table_typed(c, a.ir.t), "is_ir": c.isinst(a.ir.t, "IR")}
+
+    def _sel(self, c0, a):
+        sel = oneof(c0, "SymbolicExpression", "value", a.proto_expr.t)
+        return sel == VStr(z3.StringVal("addr_const")), sel == VStr(z3.StringVal("addr_addr"))
+
+    def raises(self, c0, a):
+        isc, isa = self._sel(c0, a)
+        return {"TypeError": z3.And(z3.Not(isc), z3.Not(isa))}
+
+    def may_raise(self, c0, a):
+        isc, isa = self._sel(c0, a)
+        return {"DeserializationError": z3.Or(isc, isa), "ValueError": z3.Or(isc, isa)}
+
+    def post(self, c0, c1, a, res):
+        isc, isa = self._sel(c0, a)
+        m = a.proto_expr.t
+        e = ref(to_val(res))
+        ac, aa = ref(f(c0, "SymbolicExpression", "addr_const", m)), ref(f(c0, "SymbolicExpression", "addr_addr", m))
+        look = lambda msg, fld, mm: lookup(c0, a.ir.t, VUuid(b2u(msg_uuid(c0, msg, fld, mm))))
+        return {"addr_const_gives_SymAddrConst": z3.Implies(isc, z3.And(
+                    c1.kind(e) == c1.eng.schema.class_id("SymAddrConst"),
+                    c1.get("offset", e) == f(c0, "SymAddrConst", "offset", ac),
+                    c1.get("symbol", e) == look("SymAddrConst", "symbol_uuid", ac))),
+                "addr_addr_gives_SymAddrAddr": z3.Implies(isa, z3.And(
+                    c1.kind(e) == c1.eng.schema.class_id("SymAddrAddr"),
+                    c1.get("offset", e) == f(c0, "SymAddrAddr", "offset", aa),
+                    c1.get("scale", e) == f(c0, "SymAddrAddr", "scale", aa),
+                    c1.get("symbol1", e) == look("SymAddrAddr", "symbol1_uuid", aa),
+                    c1.get("symbol2", e) == look("SymAddrAddr", "symbol2_uuid", aa)))}
+
+
+_reg_prev = register
+
+
+def register(reg):      # noqa: F811
+    _reg_prev(reg)
+    for c in (ToProtoBlock("CodeBlock"), ToProtoBlock("DataBlock"), DecodeSymExpr()):
+        reg.add(c)
+
+
+class DecodeBlock(IoContract):
+    """ByteInterval._decode_protobuf/decode_block: the one-of selects the block class, the block is decoded-or-reused
+    through the table, and its offset is the message's"""
+    target = BI + "_decode_protobuf/decode_block"
+    props = ("C02", "C09", "C17", "C01")
+    params = {"proto_block": "pb:Block"}
+    closure = {"ir": "ref:IR"}
+    inline_all = True
+    contract_callees = ("node.py::Node._from_protobuf",)
+
+    def modifies(self, c0, a):
+        return {"*": None}
+
+    def frame_obligations(self, eng, c0, c1, a):
+        return {}
+
+    def pre(self, c, a):
+        m = a.proto_block.t
+        P = c.eng.schema.pb
+        cd, dt = f(c, "Block", "code", m), f(c, "Block", "data", m)
+        sel = oneof(c, "Block", "value", m)
+        return {"message_typed": z3.And(P.typed(c, m, "Block"),
+                                        z3.Implies(is_VRef(cd), P.typed(c, ref(cd), "CodeBlock")),
+                                        z3.Implies(is_VRef(dt), P.typed(c, ref(dt), "DataBlock")),
+                                        z3.Implies(sel == VStr(z3.StringVal("code")), is_VRef(cd)),
+                                        z3.Implies(sel == VStr(z3.StringVal("data")), is_VRef(dt))),
+                "table_typed": table_typed(c, a.ir.t), "is_ir": c.isinst(a.ir.t, "IR"),
+                "ir_alive": z3.Select(c.arr("$alive"), a.ir.t),
+                # blocks already in the table are not attached to an interval yet (decode order: blocks of an interval
+                # are decoded before the interval exists)
+                "table_blocks_unattached": self._unattached(c, a.ir.t), "table_keyed": table_keyed(c, a.ir.t)}
+
+    def _unattached(self, c, ir):
+        d, mp = table(c, ir)
+        u = fresh("u", Val)
+        v = z3.Select(mp, u)
+        return z3.ForAll([u], z3.Implies(z3.And(z3.Select(d, u), c.isinst(ref(v), "ByteBlock")),
+                                         is_VNone(c.get("_byte_interval", ref(v)))))
+
+    def _sel(self, c0, a):
+        sel = oneof(c0, "Block", "value", a.proto_block.t)
+        return sel == VStr(z3.StringVal("code")), sel == VStr(z3.StringVal("data"))
+
+    def raises(self, c0, a):
+        isc, isd = self._sel(c0, a)
+        return {"TypeError": z3.And(z3.Not(isc), z3.Not(isd))}
+
+    def may_raise(self, c0, a):
+        isc, isd = self._sel(c0, a)
+        return {"Exception": z3.Or(isc, isd)}
+
+    def post(self, c0, c1, a, res):
+        isc, isd = self._sel(c0, a)
+        m = a.proto_block.t
+        b = ref(to_val(res))
+        cd, dt = ref(f(c0, "Block", "code", m)), ref(f(c0, "Block", "data", m))
+        look = lambda msg, mm: lookup(c0, a.ir.t, VUuid(b2u(msg_uuid(c0, msg, "uuid", mm))))
+        return {"offset": c1.get("_offset", b) == f(c0, "Block", "offset", m),
+                "code_gives_a_CodeBlock": z3.Implies(isc, z3.And(c1.isinst(b, "CodeBlock"),
+                                                                 z3.Implies(is_VRef(look("CodeBlock", cd)), VRef(b) == look("CodeBlock", cd)),
+                                                                 c1.get("uuid", b) == VUuid(b2u(msg_uuid(c0, "CodeBlock", "uuid", cd))))),
+                "data_gives_a_DataBlock": z3.Implies(isd, z3.And(c1.isinst(b, "DataBlock"),
+                                                                 z3.Implies(is_VRef(look("DataBlock", dt)), VRef(b) == look("DataBlock", dt)),
+                                                                 c1.get("uuid", b) == VUuid(b2u(msg_uuid(c0, "DataBlock", "uuid", dt)))))}
+
+
+_reg_prev2 = register
+
+
+def register(reg):      # noqa: F811
+    _reg_prev2(reg)
+    reg.add(DecodeBlock())
